@@ -1393,10 +1393,34 @@ def property_rebuild(tree, fam):
     return slots, True
 
 
+def _describe_helper_ok(repo):
+    """`check_types._describe(value)` is `try: return str(value)` / `except Exception|BaseException: return object.__repr__(value)`:
+    formatting a tuple of arguments through it can never raise (the repr of an element that raises ends in the fallback)"""
+    try:
+        tree = ast.parse(src(repo, 'pedantic/type_checking_logic/check_types.py'))
+    except (OSError, SyntaxError):
+        return False
+    fns = [n for n in tree.body if isinstance(n, ast.FunctionDef) and n.name == '_describe']
+    if len(fns) != 1 or len(fns[0].args.args) != 1:
+        return False
+    arg = fns[0].args.args[0].arg
+    body = [b for b in fns[0].body if not (isinstance(b, ast.Expr) and isinstance(b.value, ast.Constant))]
+    if len(body) != 1 or not isinstance(body[0], ast.Try):
+        return False
+    t = body[0]
+    if t.finalbody or t.orelse or len(t.handlers) != 1 or len(t.body) != 1 or len(t.handlers[0].body) != 1:
+        return False
+    h = t.handlers[0]
+    caught = ast.unparse(h.type) if h.type is not None else 'BaseException'
+    ok_try = isinstance(t.body[0], ast.Return) and ast.unparse(t.body[0].value) in (f'str({arg})', f'repr({arg})')
+    ok_exc = isinstance(h.body[0], ast.Return) and ast.unparse(h.body[0].value) == f'object.__repr__({arg})'
+    return ok_try and ok_exc and caught in ('Exception', 'BaseException')
+
+
 def refusal_message_fact(repo):
     """FunctionCall.assert_uses_kwargs: does the message of the PedanticCallWithArgsException format the refused arguments themselves
     (`{self.args_without_self}`: `repr` of every argument runs) — True — or through the never-raising display wrapper
-    (`{_shown_args(self.args_without_self)}`) / not at all — False.  Anything else: Skip."""
+    (`{_shown_args(self.args_without_self)}`, `{_describe(self.args_without_self)}`) / not at all — False.  Anything else: Skip."""
     tree = ast.parse(src(repo, 'pedantic/models/function_call.py'))
     cls = [c for c in tree.body if isinstance(c, ast.ClassDef) and c.name == 'FunctionCall']
     fn = [m for m in (cls[0].body if cls else []) if isinstance(m, ast.FunctionDef) and m.name == 'assert_uses_kwargs']
@@ -1418,6 +1442,9 @@ def refusal_message_fact(repo):
                 raw = True
             elif t in ('_shown_args(self.args_without_self)', '_shown_args(self.args)') :
                 if not _shown_helpers_ok(repo):
+                    raw = True
+            elif t in ('_describe(self.args_without_self)', '_describe(self.args)'):
+                if not _describe_helper_ok(repo):       # check_types._describe: str(value), falling back to object.__repr__(value)
                     raw = True
             else:
                 raise Skip(f'FunctionCall.assert_uses_kwargs: the message formats {ast.unparse(v.value)[:40]}')
